@@ -43,7 +43,23 @@ func playHandshake(m *meter, client bool, end error, chunks ...[]byte) string {
 	drain() // the hand-over of the new peer to the server loop
 	peer := p2p.VerifAddedPeer(srv)
 	m.end(total)
-	out := role + "/" + errClass(err)
+	// HandleConn reports the result of its bookkeeping, not of the handshake: a second pass over the
+	// same bytes with the handshake hooks names the error class
+	c2 := newScript(end, chunks...)
+	var herr error
+	if client {
+		_, _, herr = p2p.VerifClientHandshake(c2, node.Deputy(0).Priv, rid)
+	} else {
+		_, _, herr = p2p.VerifServerHandshake(c2, node.Deputy(0).Priv)
+	}
+	cls := errClass(herr)
+	if herr == nil && err != nil {
+		cls = "ok/refused:" + err.Error()
+	}
+	if (herr == nil) != (peer != nil) && !(herr == nil && err != nil) {
+		cls += "/PASSES-DISAGREE"
+	}
+	out := role + "/" + cls
 	if conn.isClosed() {
 		out += "/dropped"
 	} else {
@@ -55,11 +71,8 @@ func playHandshake(m *meter, client bool, end error, chunks ...[]byte) string {
 	} else {
 		out += "/no-peer"
 	}
-	if err != nil && !conn.isClosed() {
+	if herr != nil && !conn.isClosed() {
 		out += "/NOT-CLOSED"
-	}
-	if err == nil && peer == nil {
-		out += "/LOST"
 	}
 	return out
 }
@@ -69,12 +82,14 @@ var memoMu sync.Mutex
 
 func memoized(k string, f func() []byte) []byte {
 	memoMu.Lock()
-	defer memoMu.Unlock()
-	if b, ok := memo[k]; ok {
-		return append([]byte{}, b...)
+	b, ok := memo[k]
+	memoMu.Unlock()
+	if !ok {
+		b = f() // deterministic: computing it twice is harmless
+		memoMu.Lock()
+		memo[k] = b
+		memoMu.Unlock()
 	}
-	b := f()
-	memo[k] = b
 	return append([]byte{}, b...)
 }
 
